@@ -278,36 +278,86 @@ pub fn run_case(case: &Case, uni: &Universe) -> (Vec<(String, String)>, Info) {
     (v, info)
 }
 
-/// A block whose fetch always fails is retried only a bounded number of times.
-fn check_retry_bound(ctx: &mut Ctx, uni: &Universe) {
+/// A block whose fetch always fails is retried only a bounded number of times - also when the
+/// peer keeps announcing it again, and per peer when several peers announce it.
+#[derive(Debug, Clone, Serialize, Deserialize, PartialEq, Eq, Hash)]
+pub struct RetryCase {
+    /// rounds (of 1800) at whose start peer 1 announces the failing block again
+    pub reannounce_at: Vec<u16>,
+    /// a second peer announces the same block (and fails as well)
+    pub second_peer: bool,
+}
+
+fn run_retry_case(rc: &RetryCase, uni: &Universe) -> (Vec<(String, String)>, [usize; 2]) {
     let ncfg = NodeCfg { gp: 100, heartbeat: 100, social_stake: 0, loading_completed: true, prune: 8 };
     let clock = Arc::new(AtomicU64::new(5_000_000));
     let mut n = NetNode::new(0, ncfg, clock.clone(), 0, 2, MemIO::new());
     let _ = n.init();
     n.add_direct(uni.blocks[0].clone());
     n.insert_connected_peer(1, 1, "http://peer/");
+    if rc.second_peer {
+        n.insert_connected_peer(2, 2, "http://peer2/");
+    }
     let b = &uni.blocks[1];
     n.net_event(NetworkEvent::IncomingNetworkMessage { peer_index: 1, buffer: Message::BlockHeaderHash(b.hash, b.id).serialize() });
-    let mut requests = 0usize;
-    let rounds = 1200;
-    for _ in 0..rounds {
+    if rc.second_peer {
+        n.net_event(NetworkEvent::IncomingNetworkMessage { peer_index: 2, buffer: Message::BlockHeaderHash(b.hash, b.id).serialize() });
+    }
+    let mut requests = [0usize; 2];
+    let rounds = 1800u16;
+    let again: BTreeSet<u16> = rc.reannounce_at.iter().map(|r| r % rounds).collect();
+    for r in 0..rounds {
+        if again.contains(&r) {
+            n.net_event(NetworkEvent::IncomingNetworkMessage { peer_index: 1, buffer: Message::BlockHeaderHash(b.hash, b.id).serialize() });
+        }
         let reqs = n.take_fetches();
         for (h, p, _u, id) in reqs {
-            requests += 1;
+            requests[(p as usize - 1).min(1)] += 1;
             n.net_event(NetworkEvent::BlockFetchFailed { block_hash: h, block_id: id, peer_index: p });
         }
         clock.fetch_add(2_000, Ordering::SeqCst);
         n.routing_timer(2_000);
     }
-    ctx.evals(rounds as u64);
-    ctx.extra.insert("always_failing_block_requests".into(), json!(requests));
-    ctx.samples.push(json!({"sub": "retry_bound", "rounds": rounds, "requests_observed": requests, "bound": 502}));
-    if requests > 502 {
-        ctx.violation("C16|unbounded_retries", format!("a block whose fetch always fails was requested {requests} times in {rounds} rounds (bound MAX_RETRIES_PER_BLOCK + 2 = 502)"), json!({"sub": "retry_bound"}));
+    let mut v = vec![];
+    for (i, q) in requests.iter().enumerate() {
+        if *q > 502 {
+            v.push((
+                format!("C16|unbounded_retries|reannounced={}", !again.is_empty() && i == 0),
+                format!("a block whose fetch always fails was requested {q} times from peer {} in {rounds} rounds (bound MAX_RETRIES_PER_BLOCK + 2 = 502); the peer announced it again {} times", i + 1, if i == 0 { again.len() } else { 0 }),
+            ));
+        }
     }
-    if requests < 2 {
-        ctx.violation("C16|no_retry_at_all", format!("a failed fetch was never retried ({requests} requests)"), json!({"sub": "retry_bound"}));
+    if requests[0] < 2 {
+        v.push(("C16|no_retry_at_all".into(), format!("a failed fetch was never retried ({} requests)", requests[0])));
     }
+    (v, requests)
+}
+
+fn check_retry_bound(ctx: &mut Ctx, uni: &Universe) {
+    // directed: never announced again (the plain case), announced again in every round
+    for rc in [RetryCase { reannounce_at: vec![], second_peer: false }, RetryCase { reannounce_at: (0..1800).collect(), second_peer: true }] {
+        let (v, requests) = run_retry_case(&rc, uni);
+        ctx.evals(1800);
+        ctx.class("retry_bound_directed");
+        ctx.samples.push(json!({"sub": "retry_bound", "reannouncements": rc.reannounce_at.len(), "second_peer": rc.second_peer, "requests_observed": requests, "bound_per_peer": 502}));
+        if rc.reannounce_at.is_empty() {
+            ctx.extra.insert("always_failing_block_requests".into(), json!(requests[0]));
+        }
+        for (k, w) in v {
+            ctx.violation(&k, w, json!({"sub": "retry_bound", "retry_case": rc}));
+        }
+    }
+    let cases = ctx.tier.pick(6u32, 60);
+    let strat = (proptest::collection::vec(any::<u16>(), 0..6), any::<bool>()).prop_map(|(reannounce_at, second_peer)| RetryCase { reannounce_at, second_peer });
+    pbt_run(ctx, "retry_bound", cases, strat, |c, rc, counting| {
+        let (v, requests) = run_retry_case(rc, uni);
+        if counting {
+            c.evals(1800);
+            c.class(if rc.reannounce_at.iter().any(|r| r % 1800 > 1002) { "retry_bound_reannounced_after_exhaustion" } else { "retry_bound_reannounced_before_exhaustion_only" });
+            let _ = requests;
+        }
+        v
+    });
 }
 
 fn eval(c: &mut Ctx, case: &Case, uni: &Universe, counting: bool) -> Vec<(String, String)> {
@@ -359,7 +409,7 @@ pub fn arb_op() -> impl Strategy<Value = Op> {
 }
 
 pub fn run(ctx: &mut Ctx) {
-    ctx.rule = "the scheduler is driven through the routing thread only (announcements as BlockHeaderHash messages from authenticated peers, 2 s timer ticks, BlockFetched with the real block, BlockFetchFailed, BlockchainUpdated after the block arrived by another route); fetch requests are read at InterfaceIO::fetch_block_from_peer. exhaustive: all operation sequences to depth D over 2 peers x 3 blocks (batch sizes 1 and 2), each followed by a closing phase that answers every fetch; random: sequences to length 60 over 3 peers x 8 real blocks (incl. two of equal height), batch in {1,2,3,10}. invariants: in flight per peer <= batch; requests of one selection round in non-decreasing height and no announced, lacking, never-requested lower block skipped; no block in flight twice for one peer; at quiescence every announced block is present or was requested; queue empty when nothing is lacking; an always-failing block is requested <= MAX_RETRIES_PER_BLOCK + 2 times in 1200 rounds. evaluations = operations executed. non-trivial = >= 2 requests and a completion or failure; distinct by case digest".into();
+    ctx.rule = "the scheduler is driven through the routing thread only (announcements as BlockHeaderHash messages from authenticated peers, 2 s timer ticks, BlockFetched with the real block, BlockFetchFailed, BlockchainUpdated after the block arrived by another route); fetch requests are read at InterfaceIO::fetch_block_from_peer. exhaustive: all operation sequences to depth D over 2 peers x 3 blocks (batch sizes 1 and 2), each followed by a closing phase that answers every fetch; random: sequences to length 60 over 3 peers x 8 real blocks (incl. two of equal height), batch in {1,2,3,10}. invariants: in flight per peer <= batch; requests of one selection round in non-decreasing height and no announced, lacking, never-requested lower block skipped; no block in flight twice for one peer; at quiescence every announced block is present or was requested; queue empty when nothing is lacking; an always-failing block is requested <= MAX_RETRIES_PER_BLOCK + 2 times per peer in 1800 rounds, whether or not the peer announces it again at generated rounds (before and after the retries are used up) and a second peer announces it too. evaluations = operations executed. non-trivial = >= 2 requests and a completion or failure; distinct by case digest".into();
     let uni3 = universe(4);
     let uni8 = universe(9);
     check_retry_bound(ctx, &uni3);
@@ -400,6 +450,19 @@ pub fn run(ctx: &mut Ctx) {
 }
 
 pub fn replay(ctx: &mut Ctx, v: &serde_json::Value) -> bool {
+    let rc_val = v.get("retry_case").cloned().or_else(|| if v.get("check").and_then(|c| c.as_str()) == Some("retry_bound") { v.get("case").cloned() } else { None });
+    if let Some(rcv) = rc_val {
+        let rc: RetryCase = match serde_json::from_value(rcv) {
+            Ok(c) => c,
+            Err(_) => return false,
+        };
+        let (viols, _) = run_retry_case(&rc, &universe(4));
+        ctx.evals(1800);
+        for (k, w) in viols {
+            ctx.violation(&k, w, json!({"sub": "retry_bound", "retry_case": rc}));
+        }
+        return true;
+    }
     let case: Case = match serde_json::from_value(v.get("case").cloned().unwrap_or(v.clone())) {
         Ok(c) => c,
         Err(_) => return false,
